@@ -18,12 +18,12 @@ def suites(tier):
     gen = scaled_constants(readerBufferSize=3, readerSlabSize=6, chunkSize=3)
     jobs = []
     for read0 in (0, 1):
-        cfg = dict(read0=read0, reads=3 if q else 4, idle=0)
+        cfg = dict(read0=read0, reads=3 if q else 5, idle=0)
         jobs.append(dict(id=jid("feed", cfg), func="zzH_C06_feed", cfg=cfg))
     cfg = dict(read0=0, reads=0, idle=1)
     jobs.append(dict(id=jid("feed", cfg), func="zzH_C06_feed", cfg=cfg))
     for tail in ((0, 2) if q else (0, 1, 2, 4)):
-        cfg = dict(tail=tail, ops=6 if q else 8)
+        cfg = dict(tail=tail, ops=6 if q else 10)
         jobs.append(dict(id=jid("chunks", cfg), func="zzH_C06_chunks", cfg=cfg))
     for wn, field in ((0, 1), (1, 1), (1, 2)):
         cfg = dict(withnth=wn, field=field, records=3, nmax=2 if q else 3, headers=2)
